@@ -69,9 +69,15 @@ def gen(seed: int, tier: str) -> dict[str, Any]:
     if n_b and rng.random() < 0.2:
         # the interface is disconnected and connected again (same object) - possibly during a pause - and used further
         tr_ = round(rng.uniform(0.0, tmax), 6)
-        ops.append({"t": tr_, "op": "reconnect"})
+        gap = rng.choice([0.0, 0.001, 0.05])
+        ops.append({"t": tr_, "op": "reconnect", "gap": gap})
         for j in range(rng.choice([1, 2])):
             ops.append({"t": round(tr_ + 0.2 + rng.uniform(0.0, 0.5), 6), "op": "send", "id": 100 + j})
+        if rng.random() < 0.6:
+            # an indication right before the interface is taken down and one right after it is up again: the spacing holds
+            # across the reconnect of the same object
+            ops.append({"t": round(max(0.0, tr_ - rng.choice([0.0005, 0.003, 0.015])), 6), "op": "send", "id": 110})
+            ops.append({"t": round(tr_ + gap + rng.choice([0.0005, 0.003, 0.01]), 6), "op": "send", "id": 111})
     ops.sort(key=lambda o: o["t"])
     return {"seed": seed, "tier": "S", "config": {"batch": 1 if rng.random() < 0.8 else 3, "lat": 0.001}, "ops": ops}
 
@@ -128,9 +134,10 @@ def run(plan: dict[str, Any]) -> dict[str, Any]:
             rec["ret"] = R.record("op_return", "user", pid)
             rec["t_ret"] = loop.time()
 
-        async def reconnect():
+        async def reconnect(gap=0.05):
             await routing.disconnect()
-            await asyncio.sleep(0.05)
+            if gap:
+                await asyncio.sleep(gap)
             await routing.connect()
             info["reconnect_at"] = loop.time()      # the flow control starts afresh from here
 
@@ -140,7 +147,7 @@ def run(plan: dict[str, Any]) -> dict[str, Any]:
             elif op["op"] == "reconnect":
                 R.extra_faults["disconnect_and_connect_again"] += 1
                 info["reconnect_started"] = loop.time()
-                tasks.append(loop.create_task(reconnect()))
+                tasks.append(loop.create_task(reconnect(op.get("gap", 0.05))))
             else:
                 fr = W.routing_busy(op["wait"])
                 if "iters" in op:
@@ -187,7 +194,8 @@ def run(plan: dict[str, Any]) -> dict[str, Any]:
             continue        # sent while the interface was being taken down / brought up again: unjudged
         if rc is not None and t >= rc:
             # disconnect() / connect() starts the flow control afresh: pauses announced before do not bind what is sent after
-            busy_now = [(nb, tb, w) for (nb, tb, w) in busy_in if tb >= rc]
+            # (a busy frame already in flight when the socket was re-opened went to the old socket: not received)
+            busy_now = [(nb, tb, w) for (nb, tb, w) in busy_in if tb - plan["config"]["lat"] >= rc - 1e-9]
         else:
             busy_now = busy_in
         end = max([tb + w / 1000.0 for (nb, tb, w) in busy_now if nb < n], default=None)
